@@ -1,0 +1,9 @@
+//go:build !verif
+
+package tasklane
+
+import "context"
+
+// verifPoint marks a protocol boundary for runtime monitors built with the 'verif' tag.
+// Without the tag it is an empty function and is inlined away.
+func verifPoint(context.Context, string, int) {}
